@@ -57,6 +57,13 @@ pub const META_DICT: &[&str] = &[
     "{kind: ''}", "{Kind}", "{K, K}", "{5, 6}", "{dynamic}", "{prefer, finish}", "{kind: 'é'}", "{_}", "{nopse, nops}",
 ];
 
+/// terminal definitions appended to the end of the text (the `terminals` section is last)
+pub const TERM_DICT: &[&str] = &[
+    "Unused1: ;", "Unused2: ;\nUnused3: 'u';", "Unused4: 'u4' {15};", "Unused5: /u5/ {left};", "Unused6: {5};",
+    "Unused7: 'a';", "Unused8: '';", "Unused9: //;", "UnusedA: 'ua' {prefer, dynamic};", "UnusedB: /\\d+/ {200};",
+    "Layout: ;", "STOP: 's';", "EMPTY: ;", "UnusedC: ;\nUnusedC: ;", "UnusedD: 'x' {kind: K};",
+];
+
 fn repo_grammars() -> &'static Vec<String> {
     static G: OnceLock<Vec<String>> = OnceLock::new();
     G.get_or_init(|| {
@@ -146,7 +153,7 @@ pub fn text_of(c: &Case) -> String {
     let mut toks = coarse_tokens(&base);
     for (op, pos, what) in &c.mutations {
         let n = toks.len();
-        match op % 8 {
+        match op % 9 {
             0 => {
                 let i = pick(*pos, n + 1);
                 toks.insert(i, format!(" {} ", DICT[pick(*what, DICT.len())]));
@@ -179,6 +186,10 @@ pub fn text_of(c: &Case) -> String {
             6 if n > 0 => {
                 // truncate the text here
                 toks.truncate(pick(*pos, n));
+            }
+            8 => {
+                // one more terminal definition at the end (unused by the rules)
+                toks.push(format!("\n{}\n", TERM_DICT[pick(*what, TERM_DICT.len())]));
             }
             7 if n > 0 => {
                 // a meta-data block right after a name (rule level when the name starts a rule)
@@ -316,7 +327,7 @@ impl Prop for C16 {
          (alternatives, EMPTY, named and ?= assignments, inline strings in both quote styles, ? * + \
          with and without [separator], rule / production / terminal meta-data, production kinds, user \
          meta-data), or a .rustemo file of the repository, or a raw string; then 0..4 token / \
-         character level mutations (meta-data blocks from a second dictionary right after a name; insert / replace with a dictionary of 100 entries incl. greedy \
+         character level mutations (meta-data blocks from a second dictionary right after a name; an unused terminal definition from a third dictionary appended at the end; insert / replace with a dictionary of 100 entries incl. greedy \
          operators, groups, several modifiers, reserved names, Rust keywords, dotted names, huge \
          integers, broken strings and regexes; delete, swap, duplicate, truncate) x {LR,GLR} x table \
          type x prefer_shifts x prefer_shifts_over_empty x builder type x generated table layout x \
